@@ -233,6 +233,18 @@ func genTypes(thorough bool) []*typ {
 		add("string under a tag numbered like a universal type", leaf(KStr), tag, n == 12 || n == 22)
 		add("string under a tag numbered like a universal type", st(Field{"A", tag, leaf(KStr)}, Field{"B", "optional", leaf(KInt)}), "", false)
 	}
+	// 3c. the parts of a parameter string in another order: a parameter string is a set of parts
+	for _, l := range lv {
+		if !l.core && !thorough {
+			continue
+		}
+		for _, m := range []string{"tag:2,application", "tag:3,private", "tag:4,application,explicit", "tag:5,explicit,private", "tag:1,optional", "tag:0,explicit", "default:5,optional",
+			"tag:0,default:5,explicit,optional", "tag:6,private,optional", "omitempty,tag:1"} {
+			tag := join(m, l.extra)
+			add("parameter parts in another order", l.s, tag, l.core && m == "tag:3,private")
+			add("parameter parts in another order", st(Field{"A", tag, l.s}, Field{"B", "optional", leaf(KInt)}), "", false)
+		}
+	}
 	// 4. SEQUENCE OF / SET OF of every leaf
 	for _, l := range lv {
 		if l.extra != "" {
